@@ -98,10 +98,17 @@ TFailed ==
   /\ closed' = TRUE /\ l' = l + 1
   /\ UNCHANGED << ovars, tid, seen >>
 
+TRerun ==
+  /\ HasEv("rerun")
+  /\ closed
+  /\ Rerun
+  /\ closed' = FALSE /\ seen' = {} /\ l' = l + 1
+  /\ UNCHANGED tid
+
 Diag ==
   /\ "DIAG" \in DOMAIN IOEnv
   /\ l <= Len(Tr.events)
-  /\ ~ ENABLED (TRun \/ TEntry \/ TUserAfter \/ TDone \/ TDoneNoEntries \/ TFailed \/ SilentPlan \/ SilentMerge \/ SilentRun)
+  /\ ~ ENABLED (TRun \/ TEntry \/ TUserAfter \/ TDone \/ TDoneNoEntries \/ TFailed \/ TRerun \/ SilentPlan \/ SilentMerge \/ SilentRun)
   /\ PrintT(<<"EXPECTED", tid, l, ToJson([phase |-> phase, plan |-> plan, pending |-> SetToSeq(pending),
                                              seen |-> SetToSeq(seen), error |-> error,
                                              tree |-> [r \in DOMAIN tree |-> tree[r]]])>>)
@@ -109,7 +116,7 @@ Diag ==
   /\ UNCHANGED tvars
 
 TNext == SilentPlan \/ SilentMerge \/ SilentRun \/ TRun \/ TEntry \/ TUserAfter \/ TDone \/ TDoneNoEntries
-         \/ TFailed \/ Diag
+         \/ TFailed \/ TRerun \/ Diag
 TSpec == TInit /\ [][TNext]_tvars
 
 Accepted == closed /\ l = Len(Tr.events) + 1
